@@ -155,13 +155,12 @@ func c16Protos() []c16Proto {
 }
 
 // c16Scenarios: every proto under every mode it applies to (named proto@mode; the manual mode keeps the
-// bare name), then generated start states. faultTier thins the auto-mode variants for the single-fault
-// monitor of the quick tier (half of them, alternating), the crash monitor always gets all.
+// bare name), then generated start states. thin (single-fault monitor, quick tier) keeps one in three of
+// the auto-mode variants of the protos that apply to every mode; the crash monitor always gets all.
 func c16Scenarios(nRandom int, thin bool) []c16Scenario {
 	var sc []c16Scenario
-	nv := 0
-	for _, p := range c16Protos() {
-		for _, m := range c16Modes {
+	for pi, p := range c16Protos() {
+		for mi, m := range c16Modes {
 			if p.modes != nil {
 				ok := false
 				for _, n := range p.modes {
@@ -174,8 +173,7 @@ func c16Scenarios(nRandom int, thin bool) []c16Scenario {
 			name := p.name
 			if m.name != "manual" {
 				name += "@" + m.name
-				nv++
-				if thin && nv%2 == 0 && p.modes == nil {
+				if thin && p.modes == nil && (pi+mi)%3 != 0 {
 					continue
 				}
 			}
@@ -416,6 +414,7 @@ func c16Run(t *testing.T, mode string, r *kit.Result, seed int64) {
 			}
 			r.Sample(map[string]any{"scenario": sc.name, "target": tg.desc, "mode": mode, "points": keys})
 		}
+		r.Count("points:"+sc.name, len(points))
 		for _, pt := range points {
 			global++
 			if !kit.WantCase(pt.id) {
